@@ -344,3 +344,133 @@ def unguarded_constant_subscripts(prog, finfo, origin_ok=None):
                 if have < need:
                     out.append((x, need, have, "len(%s) >= %d needed, only >= %d established on some path" % (name, need, have)))
     return out
+
+
+def _origin_base(fl, n, name, params):
+    """lower bound on len(name) from the kind of its reaching definitions, or None when some definition is not a
+    sequence built from outside data (see unguarded_constant_subscripts)."""
+    base = None
+    for (dn, rhs) in fl.defs(name, n):
+        if dn.kind == "entry" and name in params:
+            b = 0
+        elif rhs is not None and isinstance(rhs, ast.Call) and isinstance(rhs.func, ast.Attribute) and rhs.func.attr in ("split", "rsplit"):
+            b = 1
+        elif rhs is not None and isinstance(rhs, ast.Call) and (unparse(rhs.func) in ("re.split",) or
+                                                                (isinstance(rhs.func, ast.Attribute) and rhs.func.attr in ("readlines", "splitlines"))):
+            b = 0 if unparse(rhs.func) != "re.split" else 1
+        elif rhs is not None and isinstance(rhs, ast.Subscript) and isinstance(rhs.slice, ast.Slice):
+            b = 0
+        elif rhs is not None and isinstance(rhs, ast.Call) and any(isinstance(a, ast.Name) and a.id == name for a in rhs.args):
+            b = 0
+        else:
+            return None
+        base = b if base is None else min(base, b)
+    return base
+
+
+def unguarded_variable_subscripts(prog, finfo):
+    """[(Subscript, why)] for `X[v]`, `X[v + c]`, `X[i - N]` (i ranging over range(N)) on a sequence X built from
+    outside data where no dominating test establishes the index inside len(X).  A guard counts only when the index
+    variable is not reassigned between the guard and the use; when every guard that mentions len(X) is invalidated
+    that way (loop counters) the site is left undecided, not reported."""
+    from .flow import Flow, node_exprs
+    from .bounds import facts
+    from .cfg import assigned_names
+    fl = Flow(prog, finfo, implicit=False)
+    params = set(finfo.params())
+    out = []
+
+    def len_aliases(X, at):
+        """{text: offset} such that text == len(X) + offset"""
+        al = {"len(%s)" % X: 0}
+        for nd in fl.cfg.nodes:
+            if nd.id in fl.live and nd.kind == "stmt" and isinstance(nd.ast, ast.Assign) and len(nd.ast.targets) == 1 and isinstance(nd.ast.targets[0], ast.Name):
+                v = nd.ast.value
+                t = nd.ast.targets[0].id
+                if unparse(v) == "len(%s)" % X:
+                    al[t] = 0
+                elif isinstance(v, ast.BinOp) and unparse(v.left) == "len(%s)" % X and isinstance(v.right, ast.Constant) and isinstance(v.right.value, int):
+                    al[t] = v.right.value if isinstance(v.op, ast.Add) else (-v.right.value if isinstance(v.op, ast.Sub) else None)
+                    if al[t] is None:
+                        del al[t]
+        return al
+
+    def established_hi(n, var, X):
+        """(best offset k such that var <= len(X) + k on every path to n with var unchanged since, saw_any_guard)"""
+        best = None
+        saw = False
+        al = len_aliases(X, n)
+        back = fl.cfg.reach([n.id], forward=False)
+        for c in fl.nodes(lambda q: q.kind == "cond" and isinstance(q.ast, ast.Compare)):
+            for arm in ("T", "F"):
+                for fct in facts(c.ast, var)[arm]:
+                    hi = fct.get("hi")
+                    if hi is None or hi[0] not in al:
+                        continue
+                    saw = True
+                    k = hi[1] + al[hi[0]]
+                    g = fl.edge_guard(lambda q, t=c.ast: q is t, arm)
+                    if not fl.dominated([n], guard_edge=g):
+                        continue
+                    dsts = [d for (d, lab) in fl.cfg.succ[c.id] if lab == arm]
+                    between = fl.cfg.reach(dsts, avoid_nodes=set([n.id])) & back
+                    if any(var in assigned_names(fl.cfg.nodes[i]) for i in between if i != n.id):
+                        continue
+                    best = k if best is None else min(best, k)
+        return best, saw
+
+    for n in fl.cfg.nodes:
+        if n.id not in fl.live or n.ast is None or n.kind in ("entry", "loop_head", "try", "def", "with_exit"):
+            continue
+        for root in node_exprs(n):
+            for x in walk_no_defs(root):
+                if not (isinstance(x, ast.Subscript) and isinstance(x.ctx, ast.Load) and isinstance(x.value, ast.Name)):
+                    continue
+                if isinstance(x.slice, (ast.Slice, ast.Constant)) or (isinstance(x.slice, ast.UnaryOp) and isinstance(x.slice.operand, ast.Constant)):
+                    continue
+                X = x.value.id
+                if _origin_base(fl, n, X, params) is None:
+                    continue
+                e = x.slice
+                var, need = None, None
+                if isinstance(e, ast.Name):
+                    var, need = e.id, -1
+                elif isinstance(e, ast.BinOp) and isinstance(e.op, (ast.Add, ast.Sub)) and isinstance(e.left, ast.Name) and isinstance(e.right, ast.Constant) \
+                        and isinstance(e.right.value, int):
+                    c = e.right.value if isinstance(e.op, ast.Add) else -e.right.value
+                    var, need = e.left.id, -1 - c
+                elif isinstance(e, ast.BinOp) and isinstance(e.op, ast.Sub) and isinstance(e.left, ast.Name) and isinstance(e.right, ast.Name):
+                    # i - N with i in range(N): a negative index of magnitude <= N
+                    loops = [p for p in _parents(x) if isinstance(p, ast.For) and isinstance(p.target, ast.Name) and p.target.id == e.left.id
+                             and isinstance(p.iter, ast.Call) and unparse(p.iter.func) == "range" and [unparse(a) for a in p.iter.args] == [e.right.id]]
+                    if loops:
+                        var, need = e.right.id, 0
+                if var is None:
+                    continue
+                # a constant-valued index variable is the constant-subscript rule's business
+                ds = fl.defs(var, n)
+                if ds and all(rhs is not None and isinstance(rhs, ast.Constant) for (dn, rhs) in ds):
+                    continue
+                cands = [var]
+                if len(ds) == 1 and ds[0][1] is not None and isinstance(ds[0][1], ast.Name):
+                    cands.append(ds[0][1].id)       # v = w: a guard on w taken before the copy counts
+                best, saw = None, False
+                for cv in cands:
+                    b, s = established_hi(n if cv == var else ds[0][0], cv, X)
+                    saw = saw or s
+                    if b is not None:
+                        best = b if best is None else min(best, b)
+                if best is not None and best <= need:
+                    continue
+                if best is None and saw:
+                    continue    # only loop-carried guards: undecided
+                out.append((x, "index %s of %s: %s" % (unparse(e), X, "no test relates it to len(%s)" % X if best is None else
+                                                       "the dominating test only establishes %s <= len(%s)%+d, needs %+d" % (var, X, best, need))))
+    return out
+
+
+def _parents(node):
+    p = getattr(node, "_parent", None)
+    while p is not None:
+        yield p
+        p = getattr(p, "_parent", None)
